@@ -117,4 +117,7 @@ def observe(ds, limit, aspects=('iter', 'len', 'index', 'keys', 'items', 'bykey'
         o['partial'] = (take(ds, 1), take(ds, limit))
     if 'iter' in aspects:
         o['again'] = take(ds, limit)
+    # asked again after everything else (a first, refused len() must not
+    # leave anything behind that answers the second one)
+    o['len_again'] = guarded(lambda: len(ds))
     return o
